@@ -163,9 +163,12 @@ def build_model():
         if os.path.exists(exe):
             return exe, ""
         # extraction reads the compiled .vo files: make sure they are those of the sources the key was computed from
-        okb, blog = build_coq()
+        # (only the files the extraction depends on: a proof that no longer goes through must not stop the search for a
+        # failing input with the model)
+        need = sorted(os.path.relpath(p, COQ)[:-2] + ".vo" for p in coq_sources() if "/Model/" in p or "/Gen/" in p)
+        okb, blog = build_coq(targets=need)
         if not okb:
-            return None, "coq build failed before extraction:\n" + blog[-2000:]
+            return None, "the model files do not compile:\n" + blog[-2000:]
         os.makedirs(outdir, exist_ok=True)
         rc, out = sh(f"timeout 600 coqc -Q {COQ}/theories AJ {COQ}/theories/Extract/Extract.v -o {outdir}/Extract.vo",
                      cwd=outdir, timeout=700)
